@@ -10,5 +10,5 @@ cd "$(dirname "$0")/../.."
 if [ "${1:-}" = "--replay" ]; then
   export C32_REPLAY="$2"
 fi
-go test -c -vet=off -tags synctests -o "$BUILD/c32.test" ./checks/c32
+go test -c -p 4 -vet=off -tags synctests -o "$BUILD/c32.test" ./checks/c32
 exec "$BUILD/c32.test" -test.run '^TestVerifC32$' -test.timeout 0
